@@ -301,34 +301,53 @@ theorem C13_codec_roundtrip_types (X : Ext) (t : Ty) (hde : (deDef t).isSome = t
     have := decodeDoc_encodeDoc_nested X o i ns sd v hwf hfit
     simpa [encodeDoc, encode_serView, encAttrs_serView] using this
 
+/-- the hand-written `impl Deserialize for GetBucketLocationOutput` (xml/mod.rs, since d00ca17) *is* the generated
+root reader `named_element(tag, content)` at a string, followed by `locationVal` (the empty constraint is `None`) -/
+theorem decodeDoc_location (X : Ext) (tag : Bytes) (s : Sch) (evs : List Ev) :
+    decodeDoc X (.location tag) s evs =
+      match decodeDoc X (.named tag) .str evs with
+      | .ok w => .ok (locationVal w)
+      | .error e => .error e := by
+  simp only [decodeDoc]
+  cases expectStart tag evs with
+  | error e => rfl
+  | ok p =>
+    obtain ⟨a, r⟩ := p
+    simp only []
+    cases decode X .str a r with
+    | error e => rfl
+    | ok p =>
+      obtain ⟨v, r'⟩ := p
+      simp only []
+      cases expectEnd tag r' with
+      | error e => rfl
+      | ok r'' =>
+        simp only []
+        cases expectEof r'' with
+        | error e => rfl
+        | ok u => rfl
+
 /-- the hand-written `GetBucketLocationOutput` (xml/mod.rs): `Some(constraint)` with a non-empty constraint and
 `None` come back; `Some("")` is written like `None` (not in normal form) -/
 theorem C13_bucket_location_roundtrip (X : Ext) (tag : Bytes) (ns : Option Bytes) (s : Sch) :
     (∀ b : Bytes, b ≠ [] → utf8Valid b = true →
       decodeDoc X (.location tag) s (encodeDoc (.location tag ns) s (.struct [.one (.str b)])) = .ok (.struct [.one (.str b)])) ∧
     decodeDoc X (.location tag) s (encodeDoc (.location tag ns) s (.struct [.absent])) = .ok (.struct [.absent]) := by
-  have hend : ∀ (k : Nat) (acc : FVal), forEach (locationItem tag) (k + 1) [] acc = .ok (acc, []) := by
-    intro k acc; simp [forEach, skipText]
+  have hwf : Sch.wf .str = true := by decide
   constructor
   · intro b hb hv
-    have he : escapeText b ≠ [] := fun h => hb (escapeText_eq_nil.mp h)
-    have henc : encodeDoc (.location tag ns) s (.struct [.one (.str b)])
-        = [.start tag (nsAttr ns), .text (escapeText b), .stop tag] := by
-      simp [encodeDoc, textEv, he]
-    have hf : locationItem tag tag (nsAttr ns) [.text (escapeText b), .stop tag] .absent = .ok (.one (.str b), [.stop tag]) := by
-      simp [locationItem, FVal.isAbsent, textOf_text_stop _ _ _ (escapeText_noCr b), decodeStr_escapeText hv, hb]
-    rw [henc]
-    simp only [decodeDoc, List.length_cons, List.length_nil]
-    rw [forEach_step (locationItem tag) _ tag (nsAttr ns) _ [] .absent (.one (.str b)) hf, hend]
-    simp [expectEof, skipText]
-  · have henc : encodeDoc (.location tag ns) s (.struct [.absent]) = [.start tag (nsAttr ns), .stop tag] := by
-      simp [encodeDoc]
-    have hf : locationItem tag tag (nsAttr ns) [.stop tag] .absent = .ok (.absent, [.stop tag]) := by
-      simp [locationItem, FVal.isAbsent, textOf_stop, decodeStr, utf8Valid_nil, unescape]
-    rw [henc]
-    simp only [decodeDoc, List.length_cons, List.length_nil]
-    rw [forEach_step (locationItem tag) _ tag (nsAttr ns) _ [] .absent .absent hf, hend]
-    simp [expectEof, skipText]
+    have henc : encodeDoc (.location tag ns) s (.struct [.one (.str b)]) = encodeDoc (.named tag ns) .str (.str b) := by
+      simp [encodeDoc, encode, encAttrs]
+    have hrt := decodeDoc_encodeDoc_named X tag ns .str (.str b) hwf (by rw [fits_str]; exact hv)
+    rw [decodeDoc_location, henc, hrt]
+    cases b with
+    | nil => exact absurd rfl hb
+    | cons c cs => rfl
+  · have henc : encodeDoc (.location tag ns) s (.struct [.absent]) = encodeDoc (.named tag ns) .str (.str []) := by
+      simp [encodeDoc, encode, encAttrs, textEv, escapeText, escape, replaceCr]
+    have hrt := decodeDoc_encodeDoc_named X tag ns .str (.str []) hwf (by rw [fits_str]; decide)
+    rw [decodeDoc_location, henc, hrt]
+    rfl
 
 /-! ## bytes: writer and tokeniser -/
 
@@ -440,6 +459,30 @@ theorem C13_decode_strict (X : Ext) :
    fun fs acc name a evs acc' r h =>
      ⟨decodeField_fills X fs acc name a evs acc' r h, decodeField_keeps X fs acc name a evs acc' r h⟩,
    fun _ _ _ _ _ h => decode_struct_required X h⟩
+
+/-- **An accepted document has exactly one document element** (XML 1.0 production [1]; the clause
+`document-element` of well-formedness) — also under the hand-written root of `GetBucketLocationOutput`, whose document is
+the member element `LocationConstraint` itself (FULL since the repair d00ca17 of xml/mod.rs; until then the decoder
+looped over top-level elements and accepted the empty document and `<LocationConstraint/>` followed by a second
+element: finding `xml-illformed-accepted:document-element`, now fixed). For every token sequence `q` of a document that
+`GetBucketLocationOutput::deserialize` + `expect_eof` accept: the events are
+`ws* <root …> character-data text* </root> ws*` and the end of input — there *is* a root element, it is named `root`,
+its content is read as a string `w` up to its end tag, nothing but white space stands before and after it (no second
+element, no stray end tag, no tokeniser error), and the value is `locationVal w` (the empty constraint is `None`).
+Clause 1 of `C13_decode_strict` says the same of every generated root. -/
+theorem C13_accepted_documents_wellformed_document_element (X : Ext) (root : Bytes) (s : Sch) (q : List QEv) (v : Val)
+    (h : decodeDoc X (.location root) s (deEvents q) = .ok v) :
+    ∃ pre a body post mid tail w,
+      deEvents q = pre ++ .start root a :: body ∧ pre.all Ev.isWsText = true ∧ decode X .str a body = .ok (w, post) ∧
+      post = mid ++ .stop root :: tail ∧ mid.all Ev.isText = true ∧ tail.all Ev.isWsText = true ∧
+      v = locationVal w := by
+  rw [decodeDoc_location] at h
+  cases hn : decodeDoc X (.named root) .str (deEvents q) with
+  | error e => simp [hn] at h
+  | ok w =>
+    simp only [hn, Except.ok.injEq] at h
+    obtain ⟨pre, a, body, post, mid, tail, h1, h2, h3, h4, h5, h6⟩ := decodeDoc_named_clean X hn
+    exact ⟨pre, a, body, post, mid, tail, w, h1, h2, h3, h4, h5, h6, h.symm⟩
 
 /-! ## meaning -/
 
@@ -553,5 +596,23 @@ example : charsMeaning [.text [97, 13, 10, 98, 13], .comment, .text [10, 99, 38,
 /-- `<!-- -->a&lt;<![CDATA[b&]]><?pi?>c` denotes `a<b&c` -/
 example : charsMeaning [.comment, .text [97, 38, 108, 116, 59], .cdata [98, 38], .pi, .text [99]] = some [97, 60, 98, 38, 99] := by
   decide
+
+/-- the hypothesis of `C13_accepted_documents_wellformed_document_element` is inhabited: `\n<L>EU</L>\n` and `<L/>` are
+accepted under the unwrapped root `L` (as `Some("EU")` and `None`) … -/
+example : (match decodeDoc { tsParse := fun _ _ => none } (.location [76]) .str
+      (deEvents (tokenize [10, 60, 76, 62, 69, 85, 60, 47, 76, 62, 10])) with
+    | .ok (.struct [.one (.str b)]) => b == [69, 85] | _ => false) = true := by decide
+example : (match decodeDoc { tsParse := fun _ _ => none } (.location [76]) .str (deEvents (tokenize [60, 76, 47, 62])) with
+    | .ok (.struct [.absent]) => true | _ => false) = true := by decide
+
+/-- … the empty document and a comment alone are not (`UnexpectedEof`), nor is `<L/><L>EU</L>` (`UnexpectedStart`) -/
+example : (match decodeDoc { tsParse := fun _ _ => none } (.location [76]) .str (deEvents (tokenize [])) with
+    | .error e => e == .unexpectedEof | _ => false) = true := by decide
+example : (match decodeDoc { tsParse := fun _ _ => none } (.location [76]) .str
+      (deEvents (tokenize [60, 33, 45, 45, 32, 45, 45, 62])) with
+    | .error e => e == .unexpectedEof | _ => false) = true := by decide
+example : (match decodeDoc { tsParse := fun _ _ => none } (.location [76]) .str
+      (deEvents (tokenize [60, 76, 47, 62, 60, 76, 62, 69, 85, 60, 47, 76, 62])) with
+    | .error e => e == .unexpectedStart | _ => false) = true := by decide
 
 end S3V.C13
